@@ -161,7 +161,7 @@ PROPS = {
                      "$removeparam rules and non-default scriptlet permissions are not combined with deserialize here (homed in C08)",
                      "badfilter rules are not added through add_filter (documented as unsupported)"],
         floors=(300_000, 20_000, 6_000_000, 300_000),
-        extra_thorough=[],
+        extra_thorough=[stage(config="miri", budget_s=1500, watchdog_s=3000, shards=3, args=["--set", "miri=1"], name="miri", count_coverage=False)],
     ),
     "C08": simple(
         rule="case = (list mixing every network rule shape incl. all modifiers, tags, domain lists, regex kinds, fusable clusters, and cosmetic "
@@ -200,6 +200,7 @@ PROPS = {
         assumptions=["totality is judged with debug assertions and overflow checks on",
                      "process aborts (allocation failure, stack overflow) are detected by the driver from the shard journal and replayed twice"],
         floors=(60_000, 50_000, 500_000, 400_000),
+        extra_thorough=[stage(config="asan", budget_s=420, args=["--set", "sample=9"], name="asan", count_coverage=False, run_env={"ASAN_OPTIONS": "detect_leaks=0:halt_on_error=1:abort_on_error=1:allocator_may_return_null=1"})],
     ),
     "C13": simple(
         rule="case = (1-8 redirect / redirect-rule / @@...$redirect rules aimed at one URL family with priorities incl. negative, zero, equal, "
@@ -295,6 +296,7 @@ PROPS = {
         assumptions=["third-party ground truth comes from the hand-written table (lower-case hosts; the quantifier does not range over case)",
                      "for malformed authorities (stray brackets, tabs, backslashes) only totality and field consistency are judged"],
         floors=(1_500_000, 300_000, 20_000_000, 400_000),
+        extra_thorough=[stage(config="asan", budget_s=300, args=["--set", "scale=0.05"], name="asan", count_coverage=False, run_env={"ASAN_OPTIONS": "detect_leaks=0:halt_on_error=1:abort_on_error=1:allocator_may_return_null=1"})],
     ),
     "C11": simple(
         rule="total: seed rules = 24 synthetic rules of every syntax family + a stride sample of the shipped EasyList / uBO / hosts lists (quick 8k, "
@@ -309,7 +311,8 @@ PROPS = {
              "specific parser; list has >= 1 rejected and >= 1 accepted line; hosts list blocks; list has both kinds. distinct = hash of seed / list.",
         assumptions=["serialized bytes are a sound equality proxy because serialization is deterministic (C09)"],
         floors=(1_500_000, 40_000, 30_000_000, 400_000),
-        extra_thorough=[stage(config="native-css", budget_s=240, args=["--set", "only=total"], name="css", count_coverage=False)],
+        extra_thorough=[stage(config="native-css", budget_s=240, args=["--set", "only=total"], name="css", count_coverage=False),
+                        stage(config="asan", budget_s=300, args=["--set", "only=total", "--set", "scale=0.04"], name="asan", count_coverage=False, run_env={"ASAN_OPTIONS": "detect_leaks=0:halt_on_error=1:abort_on_error=1:allocator_may_return_null=1"})],
     ),
     "C19": {
         "level": "exploration",
@@ -340,6 +343,7 @@ PROPS = {
                       on_build_failure="violation_if_native_builds", hang_is_violation=True),
                 stage(config="tsan-sync", budget_s=600, watchdog_s=2400, shards=8, args=["--set", "mode=conc-only", "--set", "tsan=1"], name="tsan",
                       run_env={"TSAN_OPTIONS": "halt_on_error=1 abort_on_error=0 exitcode=66 report_signal_unsafe=0"}, count_coverage=False),
+                stage(config="miri-sync", budget_s=1500, watchdog_s=3000, shards=1, args=["--set", "mode=conc-only", "--set", "miri=1"], name="miri", count_coverage=False),
             ]},
         },
     },
